@@ -5,6 +5,7 @@
 //!   vcheck replay <ID> <file>              strict re-run of a saved case
 //!   vcheck worker ... / vcheck one ...     internal
 
+mod c01;
 mod c02;
 mod c03;
 mod c04;
@@ -21,6 +22,7 @@ mod c14;
 mod c15;
 mod c16;
 mod c17;
+mod c18;
 mod c19;
 mod c20;
 mod compile;
@@ -41,7 +43,7 @@ mod wire;
 use engine::{Check, Tier};
 
 fn registry() -> Vec<&'static dyn Check> {
-    vec![&c02::C02, &c03::C03, &c04::C04, &c05::C05, &c06::C06, &c07::C07, &c08::C08, &c09::C09, &c10::C10, &c11::C11, &c12::C12, &c13::C13, &c14::C14, &c15::C15, &c16::C16, &c17::C17, &c19::C19, &c20::C20]
+    vec![&c01::C01, &c02::C02, &c03::C03, &c04::C04, &c05::C05, &c06::C06, &c07::C07, &c08::C08, &c09::C09, &c10::C10, &c11::C11, &c12::C12, &c13::C13, &c14::C14, &c15::C15, &c16::C16, &c17::C17, &c18::C18, &c19::C19, &c20::C20]
 }
 
 fn find(id: &str) -> &'static dyn Check {
@@ -75,6 +77,7 @@ fn main() {
             let strict = args.get(6).map(|s| s == "strict").unwrap_or(true);
             engine::one_main(check, args[3].clone(), args[4].clone(), args[5].clone(), strict)
         }
+        Some("render") if args.len() >= 6 => engine::render_main(find(&args[2]), args[3].clone(), args[4].clone(), args[5].clone()),
         Some("replay") if args.len() >= 4 => engine::replay_main(find(&args[2]), &args[3]),
         Some("needs-binary") if args.len() >= 3 => {
             if find(&args[2]).needs_binary() {
